@@ -1150,6 +1150,7 @@ def c14_same_object(run):
             text = impl.graph_to_molfile(g)
             lines = text.split("\n")
             return {"graph_to_molfile (body)": lines[:1] + lines[2:], "canonicalize + serialize": impl.tucan_of(g)}
+        pristine = g.copy()
         try:
             before = observe()
         except Exception as e:
@@ -1169,7 +1170,19 @@ def c14_same_object(run):
                     fn()
                     after = observe()
                 except Exception as e:
-                    _hit(run, "C14", "an operation raised %s on a graph object that earlier operations had been applied to (%s)" % (type(e).__name__, name), case, {})
+                    # history dependent only if the same step succeeds on an untouched copy of the molecule
+                    g_used, g = g, pristine.copy()
+                    try:
+                        fn()
+                        observe()
+                        fresh_ok = True
+                    except Exception:
+                        fresh_ok = False
+                    g = g_used
+                    if fresh_ok:
+                        _hit(run, "C14", "an operation raised %s on a graph object that earlier operations had been applied to (%s)" % (type(e).__name__, name), case, {})
+                    else:
+                        run.count("c14:same-object step raises on a fresh graph too (%s)" % name)
                     break
                 changed = [k for k in before if before[k] != after[k]]
                 if changed:
@@ -1347,20 +1360,22 @@ SPECS = {
     "C16": dict(fn=c16, level="proof", components=["K9"],
                 assumptions=["random.shuffle is an oracle: any permutation of the label list; the model is given the stream replayed from random.seed(seed)"],
                 rule="molecules of gens.standard_stream (with payload attributes and bond types) + K2..K6, graphs with 0/1/2/3 edges, stars, non-contiguous and "
-                     "unsorted labels, canonicalized inputs; seeds from the rng in [0,1) plus 0.0 and 0.999999. Per (molecule, seed): bijection through a tracer "
+                     "unsorted labels, canonicalized inputs, several complete components (23 seeds), tiny symmetric molecules (H-O-H 400 seeds, four-ring / BF3 1200 seeds: runs of "
+                     "edge-preserving shuffles); every call under a 30 s watchdog; seeds from the rng in [0,1) plus 0.0 and 0.999999. Per (molecule, seed): bijection through a tracer "
                      "attribute, all node/edge data carried, label order, argument snapshot, determinism under another global-random history, changed edge set. "
                      "non-trivial = distinct (molecule, seed) with >= 3 atoms and >= 2 bonds"),
     "C15": dict(fn=c15, level="proof", components=["K11"],
                 assumptions=["stack/heap limits are explored, not proved: the sizes run are listed in input_distribution",
                              "ANTLR runtime and generated parser are outside the static recursion check"],
                 rule="static AST call-graph recursion check + the real pipeline in fresh spawned worker processes on chains, hetero-rings, combs, ladders, "
-                     "poly-alanine, isolated atoms, many fragments, K_n, stars, binary trees (sizes: quick up to 3000 atoms / 1200 rounds, thorough up to 6000 atoms / "
-                     "3000 rounds), K11 on moderate instances. non-trivial = distinct (family, n) with >= 100 refinement rounds or >= 1000 atoms"),
+                     "poly-alanine, isolated atoms, many fragments, K_n, stars, binary trees, chains through all 118 elements (sizes: quick up to 3000 atoms / 1200 rounds, thorough up to 6000 atoms / "
+                     "3000 rounds), K11 on moderate instances (there the canonical graph is also serialized a second time and canonicalized again). non-trivial = distinct (family, n) with >= 100 refinement rounds or >= 1000 atoms"),
     "C14": dict(fn=c14, level="proof", components=["K10"],
                 assumptions=["histories and thread schedules are explored, not proved"],
                 rule="one mixed workload of ~150 operations run in fresh subprocesses under PYTHONHASHSEED in {0,1,2,12345,random,..} x call orders "
                      "(listed, reversed, rejected inputs first on a cold parser cache, ..) and from 8 concurrent threads (several switch intervals); every result "
-                     "(JSON with iteration orders; molfile minus timestamp line) compared with the reference run. non-trivial = distinct (operation, configuration) "
+                     "(JSON with iteration orders; molfile minus timestamp line) compared with the reference run; plus, in process, writer (both coordinate modes), "
+                     "canonicalization, serialization and the permutation helper applied in random order to ONE graph object, the writer's and the pipeline's result for that object compared before and after each step. non-trivial = distinct (operation, configuration) "
                      "with configuration != reference"),
 }
 
